@@ -1,5 +1,6 @@
 """C01 - every design vector decodes to a valid architecture instance (DESIGN.md 6/C01)"""
 from hypothesis import strategies as st
+from ..strat import ints
 from .. import specs, refsel, identity
 from ..core import Result, viol, exc_sig
 from ..observe import observe
@@ -20,7 +21,7 @@ def strategy(tier):
                           specs.full_spec(max_nodes=9 if tier == 'quick' else 12), specs.two_conn_spec(),
                           specs.conn_dv_spec()),
         'enc': st.sampled_from(['COMPLETE', 'FAST']),
-        'vseed': st.integers(0, 2**32),
+        'vseed': ints(0, 2**32),
     })
 
 
